@@ -390,6 +390,20 @@ def h_r1(p: Project, rep: Report):
             nv = getattr(nxt, "value", None) if isinstance(nxt, (ast.Assign, ast.AnnAssign)) else None
             good = good and nv is not None and (_is_chunk(text(nv), src) or text(nv) in (f"{src}.readline()", f"{src}.read()"))
         rep.check("H-R1", "parse_header:header_start-just-before-first-read", good, "" if good else "the start position is not the stream position immediately before the first header line is read (or that line is altered as it is read)", hloc(p, fn0))
+    # what is read ahead may run on into the body (fields separated by a bare CR or by nothing put the whole file on
+    # the first "line"; a header without blank line is followed by body text within the fixed number of lines): it
+    # is decoded before the header's CHARSET is known, so the decoder must accept every byte
+    nread = 0
+    for x in ast.walk(fn):
+        info = decode_info(x, src) if isinstance(x, ast.Call) else None
+        if info is None:
+            continue
+        nread += 1
+        meth, codec, errors = info
+        total = codec in LATIN1 or errors in ("replace", "surrogateescape", "ignore", "backslashreplace")
+        rep.check("H-R1", f"parse_header:read-ahead-accepts-every-byte[{meth}#{nread}]", total, f"{text(x)} raises UnicodeDecodeError on any byte the codec does not define, and what is read here is not only the header: with CR-only or no line separators, without a blank line after the header, or with a one-line version-2 file, body text in the declared character set (ISO-8859-1, Windows-1252, UTF-8) is read by this call, so a valid file is refused before its header is even parsed" if not total else "", hloc(p, x))
+    if nread == 0:
+        rep.note("H-R1 undecided: no read-ahead decode with a constant codec found")
     pfn0 = p.get_class(HEADER, "OFXHeaderBase").own_func("parse")
     pfn = _flat2(p, HEADER, pfn0, p.get_class(HEADER, "OFXHeaderBase"))
     rps_, _x = _rp(pfn, expander=Expander(pfn))
@@ -556,14 +570,38 @@ def h_rules(p: Project, rep: Report):
         rep.run(f, p, rep)
 
 
+LATIN1 = {"latin_1", "latin-1", "latin1", "iso-8859-1", "iso8859-1", "iso8859_1", "l1", "8859"}
+ONE_FOR_ONE_ERRORS = {"strict", "replace", "surrogateescape"}  # handlers that never change the number of characters
+
+
+def decode_info(e, src: str):
+    """(method, codec, errors) when `e` is exactly `<src>.readline()/read().decode(<const codec>[, <const errors>])`,
+    else None"""
+    if not (isinstance(e, ast.Call) and isinstance(e.func, ast.Attribute) and e.func.attr == "decode"):
+        return None
+    recv = e.func.value
+    if not (isinstance(recv, ast.Call) and isinstance(recv.func, ast.Attribute) and recv.func.attr in ("readline", "read") and text(recv.func.value) == src and not recv.args and not recv.keywords):
+        return None
+    codec = e.args[0] if e.args else next((k.value for k in e.keywords if k.arg == "encoding"), None)
+    errors = e.args[1] if len(e.args) > 1 else next((k.value for k in e.keywords if k.arg == "errors"), None)
+    if not (isinstance(codec, ast.Constant) and isinstance(codec.value, str)):
+        return None
+    if errors is not None and not (isinstance(errors, ast.Constant) and isinstance(errors.value, str)):
+        return None
+    if len(e.args) > 2 or any(k.arg not in ("encoding", "errors") for k in e.keywords):
+        return None
+    return recv.func.attr, codec.value.lower(), (errors.value if errors is not None else "strict")
+
+
 def _is_chunk(v: str, src: str) -> bool:
-    """text of an expression that is exactly one read from the source decoded with a single-byte codec"""
-    for meth in ("readline()", "read()"):
-        for codec in SINGLE_BYTE:
-            for q in ("'", '"'):
-                if v == f"{src}.{meth}.decode({q}{codec}{q})":
-                    return True
-    return False
+    """text of an expression that is exactly one read from the source decoded with a single-byte codec, one
+    character per byte (an error handler that drops or expands bytes shifts every later offset)"""
+    try:
+        e = ast.parse(v, mode="eval").body
+    except SyntaxError:
+        return False
+    info = decode_info(e, src)
+    return info is not None and info[1] in SINGLE_BYTE and info[2] in ONE_FOR_ONE_ERRORS
 
 
 def _chunks_only(e, src: str, ex: Expander, depth=6) -> Optional[bool]:
